@@ -26,10 +26,11 @@ type c18World struct {
 	// store latencies in nanoseconds (0 = none)
 	slowDelete atomic.Int64
 	slowSet    atomic.Int64
+	sparePort  int
 }
 
 func newC18World(r *hx.Run) *c18World {
-	ports := hx.FreePorts(4)
+	ports := hx.FreePorts(5)
 	cw := &c18World{addrs: map[string]string{}, stores: map[string]*hx.MemStore{}}
 	cw.caches = []string{"pa", "pb", "pc"}
 	cw.W = newWorldCfg(r, 1, true, func(origins []string) *config.PikeConfig {
@@ -42,19 +43,7 @@ func newC18World(r *hx.Run) *c18World {
 			if i > 0 {
 				cc.Store = fmt.Sprintf("mem://c18/%d/%s", r.Seed, name)
 				ms := hx.NewMemStore(cc.Store)
-				ms.Script = func(op, key string, cur []byte) hx.StoreFault {
-					switch op {
-					case "delete":
-						if d := cw.slowDelete.Load(); d > 0 {
-							return hx.StoreFault{Kind: "delay", Delay: time.Duration(d)}
-						}
-					case "set":
-						if d := cw.slowSet.Load(); d > 0 {
-							return hx.StoreFault{Kind: "delay", Delay: time.Duration(d)}
-						}
-					}
-					return hx.StoreFault{}
-				}
+				ms.Script = cw.script
 				cw.stores[name] = ms
 			}
 			cfg.Caches = append(cfg.Caches, cc)
@@ -65,11 +54,41 @@ func newC18World(r *hx.Run) *c18World {
 		return cfg
 	})
 	cw.admin = srvAddr(ports[3])
+	cw.sparePort = ports[4]
 	go server.StartAdminServer(server.AdminServerConfig{Addr: cw.admin})
 	if err := hx.WaitListening(cw.admin, 5*time.Second); err != nil {
 		r.Inconclusive("admin server not listening")
 	}
 	return cw
+}
+
+// script: the latencies of the scripted stores
+func (cw *c18World) script(op, key string, cur []byte) hx.StoreFault {
+	switch op {
+	case "delete":
+		if d := cw.slowDelete.Load(); d > 0 {
+			return hx.StoreFault{Kind: "delay", Delay: time.Duration(d)}
+		}
+	case "set":
+		if d := cw.slowSet.Load(); d > 0 {
+			return hx.StoreFault{Kind: "delay", Delay: time.Duration(d)}
+		}
+	}
+	return hx.StoreFault{}
+}
+
+// addCache: a reload of the running pike that only adds a cache (with a store) and a server bound to it
+func (cw *c18World) addCache(r *hx.Run, name string) {
+	cc := config.CacheConfig{Name: name, Size: 100000, HitForPass: "3s", Store: fmt.Sprintf("mem://c18/%d/%s", r.Seed, name)}
+	ms := hx.NewMemStore(cc.Store)
+	ms.Script = cw.script
+	cw.stores[name] = ms
+	cw.Cfg.Caches = append(cw.Cfg.Caches, cc)
+	addr := srvAddr(cw.sparePort)
+	cw.addrs[name] = addr
+	cw.Cfg.Servers = append(cw.Cfg.Servers, config.ServerConfig{Addr: addr, Locations: []string{"l"}, Cache: name})
+	cw.apply(r)
+	cw.caches = append(cw.caches, name)
 }
 
 // purge through the real admin API; cacheName "" = every cache
@@ -87,15 +106,15 @@ const c18Host = "c18.example"
 func c18Key(uri string) string { return "GET " + c18Host + " " + uri }
 
 // c18Basics: sequential purge semantics on all caches, with the store inspected
-func c18Basics(r *hx.Run, cw *c18World, ps *plans, rnd *rand.Rand, n int) {
+func c18Basics(r *hx.Run, cw *c18World, ps *plans, rnd *rand.Rand, n int, tag string, variants []string) {
 	for i := 0; i < n && !r.TooMany(); i++ {
 		// the key is "METHOD host request-URI" with the URI exactly as the client sent it (escapes kept)
 		shape := []string{"", "", "?q=a%20b", "?q=c+d&x=1", "/a%2Fb.txt", "/caf%C3%A9?x=%26y", "?pct=100%25", "?session=" + strings.Repeat("0123456789abcdef", 48), "/" + strings.Repeat("deep/", 300) + "leaf"}[rnd.Intn(9)]
 		if len(shape) > 500 {
 			r.Add("purged_keys_longer_than_512_bytes", 1)
 		}
-		uri := fmt.Sprintf("/c18b/%d/%d", r.Seed, i) + shape
-		other := fmt.Sprintf("/c18b/%d/%d-neighbour", r.Seed, i) + shape
+		uri := fmt.Sprintf("/c18b%s/%d/%d", tag, r.Seed, i) + shape
+		other := fmt.Sprintf("/c18b%s/%d/%d-neighbour", tag, r.Seed, i) + shape
 		if shape != "" {
 			r.Add("purged_keys_with_escapes_or_plus", 1)
 		}
@@ -132,7 +151,7 @@ func c18Basics(r *hx.Run, cw *c18World, ps *plans, rnd *rand.Rand, n int) {
 			}
 		}
 		// the purge under test
-		variant := []string{"named", "unnamed", "absent_cache", "absent_key", "named_twice"}[rnd.Intn(5)]
+		variant := variants[rnd.Intn(len(variants))]
 		target := cw.caches[rnd.Intn(len(cw.caches))]
 		cs := map[string]interface{}{"uri": uri, "variant": variant, "target": target, "answer": a}
 		var pr *hx.Result
@@ -190,7 +209,7 @@ func c18Basics(r *hx.Run, cw *c18World, ps *plans, rnd *rand.Rand, n int) {
 				return
 			}
 		}
-		r.Distinct(fmt.Sprintf("basics %s %s %s", variant, target, a.Kind))
+		r.Distinct(fmt.Sprintf("basics%s %s %s %s", tag, variant, target, a.Kind))
 		if i < 3 {
 			r.Sample(cs)
 		}
@@ -361,6 +380,96 @@ func c18SlowStore(r *hx.Run, cw *c18World, ps *plans, rnd *rand.Rand, n int) {
 	}
 }
 
+// c18Overlap: two identical unnamed purges overlap (the first is still busy with the slow store of another cache) and the
+// key is fetched again in between; what the second purge finds when it is called must be gone when it returns
+func c18Overlap(r *hx.Run, cw *c18World, ps *plans, n int) {
+	for i := 0; i < n && !r.TooMany(); i++ {
+		uri := fmt.Sprintf("/c18o/%d/%d", r.Seed, i)
+		ps.set(uri, &plan{Seq: []ans{{Kind: "cacheable", T: 300}}})
+		get := func(cn string) *hx.Result {
+			return cw.Cl.Do(hx.Req{Addr: cw.addrs[cn], Host: c18Host, URI: uri})
+		}
+		ok := true
+		for _, cn := range cw.caches {
+			if a, b := get(cn), get(cn); a.Label != "fetching" || b.Label != "hit" {
+				ok = false
+			}
+		}
+		if !ok {
+			r.InconclusiveCase("C18 overlap: the key did not become a hit everywhere")
+			ps.del(uri)
+			continue
+		}
+		cw.slowDelete.Store(int64(300 * time.Millisecond))
+		first := make(chan *hx.Result, 1)
+		go func() { first <- cw.purge(c18Key(uri), "") }()
+		// two stores with a 300 ms delete: after 350 ms the first purge is through with at least one cache and not with all
+		time.Sleep(350 * time.Millisecond)
+		// the requests in between run side by side: the one on the cache whose store delete is pending waits for it
+		// (the purge holds the shard), so only the caches whose request was answered before the second purge is
+		// called are judged
+		type lab struct {
+			cn, label string
+		}
+		answered := make(chan lab, len(cw.caches))
+		for _, cn := range cw.caches {
+			go func(cn string) { answered <- lab{cn, get(cn).Label} }(cn)
+		}
+		time.Sleep(60 * time.Millisecond)
+		refill := map[string]string{}
+	drain:
+		for {
+			select {
+			case l := <-answered:
+				refill[l.cn] = l.label
+			default:
+				break drain
+			}
+		}
+		var p1 *hx.Result
+		overlapped := true
+		select {
+		case p1 = <-first:
+			overlapped = false
+		default:
+		}
+		p2 := cw.purge(c18Key(uri), "")
+		if p1 == nil {
+			p1 = <-first
+		}
+		cw.slowDelete.Store(0)
+		late := map[string]string{}
+		for len(refill)+len(late) < len(cw.caches) {
+			l := <-answered
+			late[l.cn] = l.label
+		}
+		after := map[string]string{}
+		for _, cn := range cw.caches {
+			after[cn] = get(cn).Label
+		}
+		r.Eval(1)
+		cs := map[string]interface{}{"uri": uri, "variant": "overlapping_identical_purges", "overlapped": overlapped, "answered_before_the_second_purge": refill, "answered_during_it(not judged)": late, "labels_after_second_purge": after}
+		if overlapped {
+			r.Add("identical_purges_overlapping", 1)
+			r.Distinct(fmt.Sprintf("overlap %v", refill))
+			r.Add("caches_judged_after_overlapping_purges", int64(len(refill)))
+		}
+		if p1.Err != nil || p1.Status != 204 || p2.Err != nil || p2.Status != 204 {
+			r.Violate("purge_failed", map[string]string{"variant": "overlap"}, "one of two overlapping purges failed", map[string]interface{}{"first": p1.Brief(), "second": p2.Brief()}, cs)
+		}
+		for cn := range refill {
+			if after[cn] == "hit" {
+				r.Violate("purged_version_served_after_purge_completed", map[string]string{"variant": "overlap"}, "cache "+cn+": a request issued after the second of two overlapping identical purges had completed is a hit on an entry that existed before that purge was called", nil, cs)
+				break
+			}
+		}
+		if i == 0 {
+			r.Sample(cs)
+		}
+		ps.del(uri)
+	}
+}
+
 // c18Porcupine: concurrent requests, purges, clock advances; per (cache,key) linearizability
 func c18Porcupine(r *hx.Run, cw *c18World, ps *plans, rnd *rand.Rand, n int) {
 	for hi := 0; hi < n && !r.TooMany(); hi++ {
@@ -482,7 +591,7 @@ func c18Porcupine(r *hx.Run, cw *c18World, ps *plans, rnd *rand.Rand, n int) {
 
 func c18(r *hx.Run) {
 	r.MaxViol = 6 // violations here usually cost a watchdog period each
-	r.Rule = "three caches (one without store, two with scripted in-memory stores) behind three servers sharing the client-supplied Host; purges through the real admin DELETE /cache; keys with percent escapes, plus signs and of more than 512 bytes; store writes that stall for 2.3 s and then land. basics: fetch+hit on every cache, one purge variant {named, unnamed, absent cache, absent key, named twice} (in a quarter of the cases every store delete takes 25 ms), store records inspected, next request per cache and for a neighbour key judged by the entry model; slow store: a lookup issued while the purge is between LRU removal and the end of a slow store delete, and a purge right after a fill whose store write is slow (afterwards the key must not be answered from the purged version and the record must be gone); directed: purge while the fetch is held at the origin with 1-5 parked waiters (must return before the release, nobody stranded); porcupine: 6 clients + 2 purgers + clock advancer, per (cache,key) linearizability. Non-trivial = case with a purge of a present key; distinct = variant/partition."
+	r.Rule = "three caches (one without store, two with scripted in-memory stores) behind three servers sharing the client-supplied Host; purges through the real admin DELETE /cache; keys with percent escapes, plus signs and of more than 512 bytes; store writes that stall for 2.3 s and then land. basics: fetch+hit on every cache, one purge variant {named, unnamed, absent cache, absent key, named twice} (in a quarter of the cases every store delete takes 25 ms), store records inspected, next request per cache and for a neighbour key judged by the entry model; slow store: a lookup issued while the purge is between LRU removal and the end of a slow store delete, and a purge right after a fill whose store write is slow (afterwards the key must not be answered from the purged version and the record must be gone); directed: purge while the fetch is held at the origin with 1-5 parked waiters (must return before the release, nobody stranded); overlap: a second identical unnamed purge called while the first is still busy with a slow store, the key fetched again in between - after the second returns no cache may answer a hit; added cache: a reload adds a fourth cache and server, then the basics again with unnamed and named purges; porcupine: 6 clients + 2 purgers + clock advancer, per (cache,key) linearizability. Non-trivial = case with a purge of a present key; distinct = variant/partition."
 	r.Assume = []string{"virtual clock, hook points", "the in-memory store stands for the persistent store (badger itself in C08)", "-race build"}
 	rnd := rand.New(rand.NewSource(r.Seed))
 	cw := newC18World(r)
@@ -490,11 +599,18 @@ func c18(r *hx.Run) {
 	cw.Pts = hx.InstallPoints(r.Seed)
 	ps := &plans{}
 	cw.Farm.SetScript(ps.script)
-	c18Basics(r, cw, ps, rnd, r.Pick(100, 10000))
+	allVariants := []string{"named", "unnamed", "absent_cache", "absent_key", "named_twice"}
+	c18Basics(r, cw, ps, rnd, r.Pick(100, 10000), "", allVariants)
 	c18Directed(r, cw, ps, rnd, r.Pick(40, 4000))
 	c18SlowStore(r, cw, ps, rnd, r.Pick(24, 1500))
 	cw.Pts.SetJitter([]string{"disp.got", "purge.removed", "get.registered", "get.woken"}, 200)
 	c18Porcupine(r, cw, ps, rnd, r.Pick(60, 10000))
+	cw.Pts.SetJitter(nil, 0)
+	c18Overlap(r, cw, ps, r.Pick(3, 40))
+	// a reload of the running pike adds a cache: purges (above all the unnamed ones) must reach it as well
+	cw.addCache(r, "pd")
+	r.Add("caches_added_by_reload", 1)
+	c18Basics(r, cw, ps, rnd, r.Pick(10, 300), "-added", []string{"unnamed", "unnamed", "named"})
 	r.Set("points_hit", cw.Pts.Counts())
 	checkRaceLog(r)
 }
